@@ -231,6 +231,38 @@ static uint32_t apply_compact(uint32_t retain, uint8_t relocate) {
   return (uint32_t)from;
 }
 
+// 'A': allocate (and fill) object memory for a decoder kind WITHOUT calling
+// initialize: the object is "raw". kind:u32 fill:u32 seed:u32 dst_cap:u32
+static void do_alloc_raw(void) {
+  uint32_t kind = rd32(), fill = rd32(), seed = rd32(), dcap = rd32();
+  if (kind >= NUM_XFORMS) die("bad decoder kind");
+  const xform_desc* d = &xforms[kind];
+  size_t n = d->size();
+  free(obj);
+  obj = (uint8_t*)malloc(n);
+  if (!obj) die("out of memory (object)");
+  obj_size = n;
+  fill_mem(obj, n, fill == 3 ? 0 : fill, seed);
+  cur = d;
+  xf = d->up(obj);
+  if (dcap != dst_cap || !dst_arena[0]) {
+    free(dst_arena[0]);
+    free(dst_arena[1]);
+    dst_arena[0] = (uint8_t*)malloc(dcap + 32);
+    dst_arena[1] = (uint8_t*)malloc(dcap + 32);
+    if (!dst_arena[0] || !dst_arena[1]) die("out of memory (dst)");
+    dst_cap = dcap;
+  }
+  memset(dst_arena[0], 0, dcap + 32);
+  memset(dst_arena[1], 0, dcap + 32);
+  dst_cur = 0;
+  dst_off = 0;
+  dst_mem = dst_arena[0];
+  memset(&dst_meta, 0, sizeof(dst_meta));
+  wr8('A' | 0x20);
+  wr32((uint32_t)n);
+}
+
 // 'C' begins with the consumer's actions since the previous call (one round
 // trip per call instead of three): pre:u8 bit0 = drain (k:u32 follows),
 // bit1 = compact (retain:u32 relocate:u8 follow). The reply starts with
@@ -385,6 +417,7 @@ int main(void) {
     uint8_t op = rd8();
     switch (op) {
       case 'N': do_new(); break;
+      case 'A': do_alloc_raw(); break;
       case 'C': do_call(); break;
       case 'W': do_query(); break;
       case 'D': do_drain(); break;
